@@ -281,6 +281,15 @@ def gen_graphs(rng, tier):
         cases.append(Case([ftl], msg('c0'), None, expect=['Cyclic'] if n <= MAXP else ['TooManyPlaceables']))
     ftl = 'top = { mid }{ mid }{ mid }\nmid = { cyc }{ top }\ncyc = { cyc }\n'
     cases.append(Case([ftl], msg('top'), None, expect=['Cyclic']))
+    # D31 (fixed): entries with the same pattern TEXT are different objects; cycle detection is by identity
+    same = '{ $k ->\n    [1] { -b(k: 2) }\n   *[other] end\n }\n'
+    ftl = '-a = ' + same + '-b = ' + same + 'e = { -a(k: 1) }\nf = { -b(k: 2) }\ng = { -b(k: 1) }\nh = x{ -a(k: 1) }{ -a(k: 1) }{ -b(k: 2) }\n'
+    for e, exp, forb in (('e', [], ['Cyclic']), ('f', [], ['Cyclic']), ('g', ['Cyclic'], []), ('h', [], ['Cyclic'])):
+        for iso in (True, False):
+            cases.append(Case([ftl], msg(e), None, iso=iso, expect=exp, forbid=forb))
+    ftl = 'm1 = a{ $x }\nm2 = a{ $x }\n-t1 = a{ $x }\n-t2 = a{ $x }\n    .a = a{ $x }\ntop = { m1 }{ m2 }{ -t1 }{ -t2 }{ m1 }\nnest = a{ $x }\n'
+    cases.append(Case([ftl], msg('top'), [('x', v_str(b'X'))], forbid=['Cyclic']))
+    cases.append(Case([ftl], term('t2', 'a'), [('x', v_str(b'X'))], forbid=['Cyclic']))
     return cases
 
 
@@ -656,6 +665,13 @@ def witnesses_c06():
                    expect=['TooManyPlaceables']))
     cs.append(Case(['a = { b }\nb = { a }\n'], msg('a'), None, expect=['Cyclic']))
     return cs
+
+
+def witnesses_d31():
+    same = '{ $k ->\n    [1] { -b(k: 2) }\n   *[other] end\n }\n'
+    ftl = '-a = ' + same + '-b = ' + same + 'e = { -a(k: 1) }\nf = { -b(k: 2) }\ng = { -b(k: 1) }\n'
+    return [Case([ftl], msg('e'), None, iso=False, forbid=['Cyclic']), Case([ftl], msg('f'), None, iso=False, forbid=['Cyclic']),
+            Case([ftl], msg('g'), None, iso=False, expect=['Cyclic'])]
 
 
 def witnesses_c08():
